@@ -116,6 +116,29 @@ def check(run):
                 run.known_hits.append(k["what_fails"])
             else:
                 run.violation(msg, {"kind": "lock-not-held", "db": path, "scenario": action, "probe": got, "writer": wr})
+    # an Open of the same file that FAILS (a hot journal appeared) while the first handle is inside its callback: whatever the
+    # failed open cleans up, the reader's lock must survive it
+    import struct as _st
+    run.count(); dist["same_process"] += 1
+    core.session_send(impl, "hold normal select t a,b")
+    lines = core.session_read_until(impl, lambda l: l == "paused" or l.startswith("held"))
+    if lines[-1] == "paused":
+        jpath = path + "-journal"
+        with open(jpath, "wb") as jf:
+            hdr = bytes([0xd9, 0xd5, 0x05, 0xf9, 0x20, 0xa1, 0x63, 0xd7]) + _st.pack(">iIIII", 1, 12345, 4, 512, 1024)
+            jf.write(hdr + b"\0" * (512 - len(hdr)) + b"\0" * 1032)
+        core.session_send(impl, "f2 open %s" % path)
+        o = core.session_read_until(impl, lambda l: l.startswith("f2 "))
+        got = lk.show(lk.probe(path))
+        os.remove(jpath)
+        wr = lk.try_commit(path)
+        core.session_send(impl, "resume")
+        core.session_read_until(impl, lambda l: l.startswith("held"))
+        impl.cmd("f2 close")
+        dist["failed_open"] = o[-1]
+        if o[-1] == "f2 open err" and (got != exp_locked or wr != "locked"):
+            run.violation("a failed Open of the same file in the same process (hot journal) while a read is inside its callback: another process sees [%s], a writer's COMMIT is '%s'" % (got, wr),
+                          {"kind": "lock-not-held", "db": path, "scenario": "hold select; journal appears; Open fails; probe", "probe": got, "writer": wr})
     # a nested call on the same handle from inside the callback must not take the lock away from the outer call
     # (through every entry point: each takes the lock itself, fails on the held lock or not, and must leave the outer lock alone)
     for nested in ("nest", "nest select", "nest selectrowid", "nest iselect", "nest iselecteq", "nest pkselect"):
